@@ -109,6 +109,9 @@ def to_sympy(t, symbols):
             r = go(a[0])
         elif op == 'app':
             name = a[0]
+            if name == 'stopgrad':
+                cache[u] = go(a[1])
+                return cache[u]
             args = [go(x) for x in a[1:]]
             if name == 'exp':
                 r = sp.exp(args[0])
